@@ -389,6 +389,27 @@ class LArr:
     def close(self):
         pass
 
+    def materialize(self, limit=200000):
+        """concrete-shape lazy array with concrete contents -> numpy array (None when not possible)"""
+        if not all(_is_concrete(n) for n in self.shape):
+            return None
+        shp = tuple(builtins.int(n) for n in self.shape)
+        tot = 1
+        for n in shp:
+            tot *= n
+        if tot > limit:
+            return None
+        out = np.empty(shp, dtype=object)
+        for pos in np.ndindex(*shp):
+            v = self.fn(*pos)
+            if isinstance(v, Sym):
+                return None
+            out[pos] = v
+        try:
+            return np.array(out.tolist(), dtype=self.tag if self.tag is not None else None)
+        except Exception:
+            return np.array(out.tolist())
+
     def astype(self, dt, copy=True):
         old = self.fn
         d = arrays._np_dtype(dt)
